@@ -299,9 +299,78 @@ func c03FreshTrees(o *out, r *rng) {
 	}
 }
 
+// c03ChainsInContext: the grouping of a chain is the same when other statements with chains of their own are parsed
+// before and after it by the same parser, and when its lines end in (empty or non-empty) line comments
+func c03ChainsInContext(o *out, r *rng) {
+	ops := []string{"+", "-", "*", "/", "AND", "OR", "=", "<", "%", "|", "^", "&"}
+	chain := func() string {
+		t := pick(r, []string{"a", "(a)", "-a", "1"})
+		for j := 0; j < 1+r.intn(5); j++ {
+			t += " " + pick(r, ops) + " " + pick(r, []string{"b", "c", "(d + e)", "-f", "2", "g"})
+		}
+		return t
+	}
+	for i := 0; i < 150; i++ {
+		k := 2 + r.intn(3)
+		var parts, want []string
+		ok := true
+		for j := 0; j < k; j++ {
+			c := chain()
+			text := "SELECT " + chain() + " FROM m WHERE " + c
+			st, err := influxql.ParseStatement(text)
+			if err != nil {
+				ok = false
+				break
+			}
+			parts = append(parts, text)
+			want = append(want, stmtSexp(st))
+		}
+		if !ok {
+			continue
+		}
+		o.count("chains-in-query")
+		o.checked()
+		qt := strings.Join(parts, "; ")
+		q, err := influxql.ParseQuery(qt)
+		rp := map[string]interface{}{"op": "chains_in_query", "text": qt}
+		if err != nil || len(q.Statements) != k {
+			o.fail("", fmt.Sprintf("ParseQuery(%q): %v", qt, err), rp)
+			continue
+		}
+		for j, st := range q.Statements { // compared after the whole query has been parsed
+			if stmtSexp(st) != want[j] {
+				o.fail("", fmt.Sprintf("statement %d of %q groups as %s; parsed alone it is %s", j, qt, st.String(), parts[j]), rp)
+				break
+			}
+		}
+	}
+	for i := 0; i < 150; i++ {
+		c := chain()
+		e1, err := influxql.ParseExpr(c)
+		if err != nil {
+			continue
+		}
+		words := strings.Split(c, " ")
+		var b strings.Builder
+		for j, w := range words {
+			b.WriteString(w)
+			if j+1 < len(words) {
+				b.WriteString(pick(r, []string{" ", " --\n", " -- c\n", " --\r\n", "\n", " --x\n ", " -- \n\n"}))
+			}
+		}
+		o.count("chain-with-line-comments")
+		o.checked()
+		e2, err2 := influxql.ParseExpr(b.String())
+		if err2 != nil || exprSexp(e2) != exprSexp(e1) {
+			o.fail("", fmt.Sprintf("%q parses as %v (%v); without the line comments it is %s", b.String(), e2, err2, e1.String()), map[string]interface{}{"op": "chain_comments", "text": b.String()})
+		}
+	}
+}
+
 func propC03(o *out, r *rng, thorough bool) {
 	tokenTableCase(o)
 	c03FreshTrees(o, r)
+	c03ChainsInContext(o, r)
 	// exhaustive chains of k operators over all 18 spellings with plain atoms
 	maxK := 3
 	if thorough {
